@@ -40,6 +40,9 @@ def build(rng, profile="full", **kw):
         if syntax == "itp":
             # itp syntax has no version tags: one interaction per (section, atoms); impropers share [dihedrals]
             _dedupe_itp(b)
+        if rng.random() < kw.get("p_resnr_offset", 0.0):
+            # the residue-number column of a block need not start at 1 (a fragment cut out of a larger molecule)
+            b["resnr_offset"] = rng.choice([1, 2, 6])
         blocks.append(b)
     if not kw.get("mixed_nrexcl", True) or rng.random() < kw.get("p_uniform", 0.5):
         v = rng.randint(0, 3)
@@ -71,6 +74,8 @@ def build(rng, profile="full", **kw):
         k = rng.randint(2, 3)
         rn = [rng.choice(["MX", "MY", "MZ"]) for _ in range(k)]
         multi = FF.gen_multi_block(rng, "MULTI", rn)
+        if rng.random() < kw.get("p_resnr_offset", 0.0):
+            multi["resnr_offset"] = rng.choice([1, 2, 6])
         blocks.append(multi)
 
     # ---- files -------------------------------------------------------------------------------------------
